@@ -87,10 +87,10 @@ def plan(tier, seed, scale=1.0):
     for n in values.BIG_LENS:
         for fam, spec in values.big_specs(n):
             units.append({'kind': 'len', 'family': fam, 'spec': spec, 'n': n, 'tier': tier, 'seed': seed, 'big': True})
-    nseq = int((20000 if tier == 'quick' else 2000000) * scale)
+    nseq = int((20000 if tier == 'quick' else 1000000) * scale)
     for i in range(0, nseq, 2000 if tier == 'quick' else 20000):
         units.append({'kind': 'sequences', 'seed': seed, 'first': i, 'count': min(2000 if tier == 'quick' else 20000, nseq - i)})
-    nrand = int((3000 if tier == 'quick' else 400000) * scale)
+    nrand = int((3000 if tier == 'quick' else 120000) * scale)
     per = 100 if tier == 'quick' else 1000
     for i in range(0, nrand, per):
         units.append({'kind': 'random', 'seed': seed, 'first': i, 'count': min(per, nrand - i), 'tier': tier})
